@@ -24,6 +24,30 @@ ASSUMPTIONS = [
 ]
 
 
+LEVEL_NOTE = (
+    "Sampling, not proof. Trusted base: the simulator (SimLoop, seams, SimTransport), the independent response tokenizer and the "
+    "reference model in /verif; sqlite3 atomic commit; CPython sys.audit coverage. Real code: everything under /repo/asimap used by the "
+    "per-user process, aiosqlite (minus its thread), aiofiles, stdlib mailbox/email/asyncio streams. Stubbed: kernel sockets/TLS, threads, "
+    "the front-end process, file mtimes (virtual), logging."
+)
+
+
+def base_config(rule, level_text, budget=(75, 900), **kw):
+    cfg = {
+        "level": "exploration",
+        "budget": {"quick": budget[0], "thorough": budget[1]},
+        "wall": 60,
+        "rule": rule,
+        "level_text": level_text,
+        "level_note": LEVEL_NOTE,
+        "real": REAL,
+        "stub": STUB,
+        "assumptions": list(ASSUMPTIONS),
+    }
+    cfg.update(kw)
+    return cfg
+
+
 def execute(program, opts, interp_cls=Interp):
     ctx = RunCtx(program, opts)
     ctx.world.known = KnownFindings()
